@@ -66,11 +66,11 @@ theorem model_uint_spec (v : Nat) (h : v < 2 ^ 256) :
     Hdw.Rlp.uint v = .ok (encode (ofNat v)) ∧ (beBytes v).head? ≠ some 0 ∧ beVal (beBytes v) = v := by
   refine ⟨?_, beBytes_head v, beVal_beBytes v⟩
   have hlen : (beBytes v).length ≤ 32 := beBytes_length_le v 32 (by simpa using h)
-  rw [ofNat, encode_str]
+  rw [Hdw.Rlp.uint, beStripped_32 v h, ofNat, encode_str]
   exact Hdw.Rlp.bytes_spec _ (by omega)
 
 theorem model_uint_zero : Hdw.Rlp.uint 0 = .ok [0x80] := by
-  rw [Hdw.Rlp.uint, beBytes_zero]; rfl
+  rw [Hdw.Rlp.uint, beStripped_32 0 (by decide), beBytes_zero]; rfl
 
 /-- the code's `list` over already-encoded items is the spec encoding of the list item -/
 theorem model_list_spec (items : List Item) (h : (encodeList items).length < 2 ^ 64) :
